@@ -1,7 +1,7 @@
 (* C14 - blade history policy of addition: the two fast paths.  Pinned theorems only. *)
 From Coq Require Import ZArith List Bool Reals Lra.
 From Flocq Require Import Core BinarySingleNaN.
-Require Import GV.FloatBase GV.FloatLemmas GV.AngleM GV.AngleProofs GV.GeonumM GV.GeonumProofs GV.TraitsM.
+Require Import GV.FloatBase GV.FloatLemmas GV.AngleM GV.AngleProofs GV.GeonumM GV.GeonumProofs GV.TraitsM GV.NewProofs GV.CtorProofs.
 Open Scope R_scope.
 
 (* identical angles: the sum keeps that angle *)
@@ -26,3 +26,14 @@ Theorem C14_path_symmetric : forall a b,
   aeqb (add_vv (ang b) (new one one)) (ang a) || aeqb (add_vv (ang a) (new one one)) (ang b).
 Proof. intros a b. apply orb_comm. Qed.
 Print Assumptions C14_path_symmetric.
+
+(* general case: blade history is never lost - the sum's angle is canonical and carries at least the
+   sum of the operands' blade counts, provided the re-encoded total is finite and below 2^42 in
+   magnitude (guaranteed inside the domain: blades <= 2^40, |atan2| <= pi) *)
+Theorem C14_general_history : forall (L : libm) a b, aeqb (ang a) (ang b) = false ->
+  aeqb (add_vv (ang a) (new one one)) (ang b) || aeqb (add_vv (ang b) (new one one)) (ang a) = false ->
+  (0 <= blade (ang a) + blade (ang b) < 2 ^ 53)%Z ->
+  fin (total_angle (sum_adjusted L a b) PI) -> Rabs (R_ (total_angle (sum_adjusted L a b) PI)) <= bpow radix2 42 ->
+  canonp (rem (ang (gadd_vv L a b))) /\ (blade (ang a) + blade (ang b) <= blade (ang (gadd_vv L a b)))%Z.
+Proof. exact gadd_general_history. Qed.
+Print Assumptions C14_general_history.
